@@ -221,6 +221,10 @@ func genValue(t *rapid.T, rt reflect.Type, depth int) *vn {
 		if rapid.IntRange(0, 4).Draw(t, "anystr") == 0 {
 			s = rapid.String().Draw(t, "rstr")
 		}
+		// long strings (past any line-wrapping width) with escapes at every offset
+		if rapid.IntRange(0, 15).Draw(t, "longstr") == 0 {
+			s = strings.Repeat("a", rapid.IntRange(40, 300).Draw(t, "pad")) + rapid.SampledFrom([]string{"\\", "\\\\\\", "\"", "\n", "é", "\x00\\"}).Draw(t, "esc") + strings.Repeat(rapid.SampledFrom([]string{"b", "\\", "b\\"}).Draw(t, "tailunit"), rapid.IntRange(0, 150).Draw(t, "tail"))
+		}
 		return &vn{S: []byte(s), IsStr: true}
 	case reflect.Pointer:
 		if rapid.IntRange(0, 4).Draw(t, "nilptr") == 0 {
